@@ -10,6 +10,7 @@ import KafkaVerif.Lemmas.GroupRunMeasure
 import KafkaVerif.Lemmas.GroupRunStruct
 import KafkaVerif.Lemmas.TransportLife
 import KafkaVerif.Gen.CloseFacts
+import KafkaVerif.Model.FetcherLife
 
 namespace KV.C09
 open KV.WriterClose
@@ -561,5 +562,150 @@ theorem close_terminates_for_source (ma bs : Nat) (async : Bool) (s : State) (hr
     (∀ e s', e.internal = true → step (sourceCfg ma bs async) s e = some s' →
       mu (sourceCfg ma bs async) s' < mu (sourceCfg ma bs async) s) :=
   close_terminates (sourceCfg ma bs async) (show Gen.CloseFacts.batchRechecksClosed = true by decide) s hr hwait
+
+end KV.C09
+
+/-! ## Partition fetchers: `(*reader).run` (Model/FetcherLife.lean, events = the RL.* hook points) -/
+namespace KV.C09
+open KV.FetcherLife
+
+/-- **fetcher_terminates_after_cancel** — once the fetcher's context is done (`Reader.Close`, a newer `start`,
+unsubscribe) every control step strictly decreases `rank`: the fetcher returns after at most 10 further control steps
+(the hand-overs `msg`/`sendErr` of the fetch response being processed do not change the control state). -/
+theorem fetcher_terminates_after_cancel (s s' : FetcherLife.State) (e : FetcherLife.Event) (hc : s.cancelled = true)
+    (he : e.control = true) (h : FetcherLife.step s e = some s') :
+    FetcherLife.rank s' < FetcherLife.rank s ∧ s'.cancelled = true := by
+  obtain ⟨pc, co, ca, sa⟩ := s
+  simp only at hc; subst hc
+  cases e <;> simp only [Event.control] at he <;> try contradiction
+  case top a =>
+    simp only [FetcherLife.step] at h
+    split at h
+    · injection h with h; subst h
+      rename_i hg
+      rcases hg with ⟨h1, h2⟩ | ⟨h1, h2⟩
+      · subst h1 h2; simp [FetcherLife.rank]
+      · have : decide (0 < a) = true := by simp [h2]
+        rcases h1 with h1 | h1 | h1 <;> (subst h1; simp [FetcherLife.rank, this])
+    · simp at h
+  case cancel =>
+    simp only [FetcherLife.step] at h
+    split at h
+    · injection h with h; subst h
+      rename_i hg
+      rcases hg with h1 | h1 <;> (subst h1; cases sa <;> simp [FetcherLife.rank])
+    · simp at h
+  case init ok =>
+    simp only [FetcherLife.step] at h
+    split at h
+    · injection h with h; subst h
+      rename_i hg
+      obtain ⟨h1, h2⟩ := hg
+      subst h1; subst h2
+      cases ok <;> simp [FetcherLife.rank]
+    · simp at h
+  case iter =>
+    simp only [FetcherLife.step] at h
+    split at h
+    · injection h with h; subst h
+      rename_i hg
+      rcases hg with h1 | h1 <;> (subst h1; simp [FetcherLife.rank])
+    · simp at h
+  case read c =>
+    simp only [FetcherLife.step] at h
+    split at h
+    · injection h with h; subst h
+      rename_i hg
+      obtain ⟨h1, h2⟩ := hg
+      subst h1; subst h2
+      cases c <;> simp [FetcherLife.rank]
+    · simp at h
+  case offsets ok =>
+    simp only [FetcherLife.step] at h
+    split at h
+    · injection h with h; subst h
+      rename_i hg
+      subst hg
+      cases ok <;> simp [FetcherLife.rank]
+    · simp at h
+
+/-- … and it is never blocked: while not exited a control step is enabled (the dial fails or succeeds, the read
+returns — every network call returns — or the pending `sleep` sees the context done) -/
+theorem fetcher_progress_after_cancel (s : FetcherLife.State) (hc : s.cancelled = true) (hx : s.pc ≠ .exited) :
+    ∃ e, e.control = true ∧ (FetcherLife.step s e).isSome := by
+  obtain ⟨pc, co, ca, sa⟩ := s
+  simp only at hc hx; subst hc
+  cases pc
+  case exited => exact absurd rfl hx
+  case idle0 => exact ⟨.top 0, rfl, by simp [FetcherLife.step]⟩
+  case top => exact ⟨.cancel, rfl, by simp [FetcherLife.step]⟩
+  case retry => exact ⟨.top 1, rfl, by simp [FetcherLife.step]⟩
+  case broke => exact ⟨.top 1, rfl, by simp [FetcherLife.step]⟩
+  case inLoop => exact ⟨.iter, rfl, by simp [FetcherLife.step]⟩
+  case iterating => exact ⟨.cancel, rfl, by simp [FetcherLife.step]⟩
+  case oor => exact ⟨.offsets false, rfl, by simp [FetcherLife.step]⟩
+  case afterOffsets => exact ⟨.iter, rfl, by simp [FetcherLife.step]⟩
+
+/-- one step keeps "a connection is owned only inside the read loop" -/
+theorem fetcher_conn_step (s s' : FetcherLife.State) (e : FetcherLife.Event)
+    (hi : s.connOpen = true → s.pc = .inLoop ∨ s.pc = .iterating ∨ s.pc = .oor ∨ s.pc = .afterOffsets)
+    (h : FetcherLife.step s e = some s') :
+    s'.connOpen = true → s'.pc = .inLoop ∨ s'.pc = .iterating ∨ s'.pc = .oor ∨ s'.pc = .afterOffsets := by
+  obtain ⟨pc, co, ca, sa⟩ := s
+  simp only at hi
+  cases e <;> simp only [FetcherLife.step] at h
+  case ctxCancel => injection h with h; subst h; exact hi
+  case sendErr => split at h <;> simp at h; subst h; exact hi
+  case msg => split at h <;> simp at h; subst h; exact hi
+  case top a => split at h <;> simp at h; subst h; intro hco; simp at hco
+  case cancel => split at h <;> simp at h; subst h; intro hco; simp at hco
+  case init ok =>
+    split at h <;> simp at h
+    rename_i hg
+    subst h
+    cases ok
+    · intro hco
+      simp only [Bool.false_eq_true, if_false] at hco ⊢
+      have := hi hco
+      rw [hg.1] at this; simp at this
+    · intro _; simp
+  case iter => split at h <;> simp at h; subst h; intro _; simp
+  case read c =>
+    split at h <;> simp at h
+    subst h
+    cases c <;> simp
+  case offsets ok =>
+    split at h <;> simp at h
+    subst h
+    cases ok <;> simp
+
+/-- **fetcher_exit_closes_conn** — in every reachable state the fetcher owns a connection only inside its read
+loop; in particular a fetcher that has returned has closed its connection (every exit path, cancelled or not). -/
+theorem fetcher_exit_closes_conn (s : FetcherLife.State) (hr : FetcherLife.Reachable s) :
+    (s.connOpen = true → s.pc = .inLoop ∨ s.pc = .iterating ∨ s.pc = .oor ∨ s.pc = .afterOffsets) ∧
+    (s.pc = .exited → s.connOpen = false) := by
+  obtain ⟨es, hrun⟩ := hr
+  have key : ∀ (es : List FetcherLife.Event) (s0 s : FetcherLife.State),
+      (s0.connOpen = true → s0.pc = .inLoop ∨ s0.pc = .iterating ∨ s0.pc = .oor ∨ s0.pc = .afterOffsets) →
+      FetcherLife.run s0 es = some s →
+      (s.connOpen = true → s.pc = .inLoop ∨ s.pc = .iterating ∨ s.pc = .oor ∨ s.pc = .afterOffsets) := by
+    intro es
+    induction es with
+    | nil => intro s0 s h0 hr; simp only [FetcherLife.run, Option.some.injEq] at hr; subst hr; exact h0
+    | cons e es ih =>
+      intro s0 s h0 hr
+      simp only [FetcherLife.run] at hr
+      cases hs : FetcherLife.step s0 e with
+      | none => simp [hs] at hr
+      | some s1 => simp only [hs] at hr; exact ih s1 s (fetcher_conn_step s0 s1 e h0 hs) hr
+  have h1 := key es {} s (by intro h; simp at h) hrun
+  refine ⟨h1, ?_⟩
+  intro hx
+  cases hco : s.connOpen with
+  | false => rfl
+  | true => have := h1 hco; rw [hx] at this; simp at this
+
+example : (FetcherLife.run {} [.top 0, .init true, .iter, .msg, .read .cont, .ctxCancel, .iter, .cancel]).map
+    (fun s => (s.pc, s.connOpen)) = some (.exited, false) := by decide
 
 end KV.C09
